@@ -175,4 +175,8 @@ theorem truncated_headers_are_errors (S : Schema) (total fuel : Nat) (s : Bool) 
 /-- witness that the `panic` outcome is not vacuous in the model: an unguarded fixed-size read of a
     short buffer is a bounds panic (this is what the regenerated guards exclude) -/
 example : decodeFixed .i32 [1, 2] = .panic .bounds := by simp [decodeFixed, rd32]
+/-- the hand-written model of the decoder functions was written from, and validated against, code with exactly this
+    control structure (guards, switches, loops, returns, call sequence): regenerated fingerprint =
+    committed fingerprint of the unchanged tree -/
+theorem model_written_from_this_code : Generated.facts.decoderSkeleton = Skeleton.decoder := Instances.skeleton_decoder
 end Frugal.C05
